@@ -167,6 +167,13 @@ def batch_residue(R, ro, rule="C08.UNWIND.BATCHES"):
             "an exception leaves wait_for only after the pending batches were dropped, unless an enclosing computation is still on the stack",
             "an exception can leave wait_for with the batches of the abandoned computation still pending in %s: the next computation on this thread "
             "flushes them (it does not behave as on a fresh scheduler)" % bf, cfg.fmt_path(p) if p else None)
+    # ... and so does a normal return: the awaited task may have been failed while it was waiting for a batch (a NonAsyncContext,
+    # a context whose pause() raised), which ends the computation without any exception passing through wait_for
+    p = cfg.find_path([cfg.entry], [cfg.exit], N, cut_nodes=drops, keep_edge=lambda e: not enclosing_left(e))
+    R.check(p is None and drops, rule, wf.qualname + ":normal", R.site(wf),
+            "wait_for returns only after the pending batches were dropped, unless an enclosing computation is still on the stack",
+            "wait_for can return with batches still pending in %s although no computation is left: a task that was failed while waiting (by a context) "
+            "leaves its batch to be flushed by the next computation" % bf, cfg.fmt_path(p) if p else None)
 
 
 def getters(R, ro):
